@@ -2,5 +2,5 @@ SPECIFICATION Spec
 CONSTANTS SEEDS = {1}
 WIDTHS = {5, 8}
 H = 6
-INVARIANTS ReaderAccepts Emit
+INVARIANTS ReaderAccepts Emit EmitHostile
 CHECK_DEADLOCK FALSE
